@@ -127,8 +127,13 @@ theorem C03_only_these_alter {s s' : State} {ev : Ev} {o o' : Oracle} {out : Out
     fits into the free space: every OTHER key keeps its entry (case (c) of `C03_only_these_remove` is impossible);
     if the key was absent the put is accepted without any admission activity (`.worked _ .accepted none [] []`: no
     estimate, nothing popped, nothing evicted) and stored — or, for a deadline that is not representable, the worker
-    panics, still evicting nothing; if the key was present the put is refused and nothing changes. -/
+    panics, still evicting nothing; if the key was present the put is refused and nothing changes.
+    STATEMENT CHANGED (hypothesis `hmaxI`: the configured limit is an `i64` — it is one, `Weight = i64`; Layer G): the
+    code computes the free space `max_weight - weight_used` in `i64`; with the total not negative (`Inv`) and the put's
+    weight positive (`Inv`: every queued command carries a positive weight) that difference lies in `[w, max]`, which is
+    inside `i64` exactly because `max` is. -/
 theorem C03_no_pressure_no_eviction {s s' : State} {o o' : Oracle} {out : Out} (hi : Inv s)
+    (hmaxI : s.cfg.maxWeight ≤ i64Max)
     {id hash : Nat} {w : Int} {k0 v : Nat} {h : Option Nat} {q : List (Cmd × Option Nat)}
     (hw : s.worker = .running)
     (hq : s.queue = (.put id hash w k0 v, h) :: q ∨ ∃ t, s.queue = (.putTtl id hash w k0 v t, h) :: q)
@@ -141,6 +146,16 @@ theorem C03_no_pressure_no_eviction {s s' : State} {o o' : Oracle} {out : Out} (
     (∀ e, s.store.get? k0 = some e →
       s'.store.get? k0 = some e ∧ ∃ kind, out = .worked kind (.rejected .keyAlreadyExists) none [] []) := by
   have hmax : w ≤ s.adm.max := by have := hi.used_nonneg; omega
+  have hwpos : 0 < w := by
+    rcases hq with hq | ⟨t, hq⟩
+    · exact hi.cmdsPositive (.put id hash w k0 v) (by simp [pendingCmds, hq])
+    · exact hi.cmdsPositive (.putTtl id hash w k0 v t) (by simp [pendingCmds, hq])
+  have hno : s.adm.spaceOverflow = false := by
+    rw [Adm.spaceOverflow_eq_false_iff]
+    have h0 := hi.used_nonneg
+    have hm := hi.maxFixed
+    simp only [i64Min, i64Max] at hmaxI ⊢
+    omega
   refine ⟨?_, ?_, ?_⟩
   · intro k hkk
     cases step_key hs k with
@@ -170,7 +185,7 @@ theorem C03_no_pressure_no_eviction {s s' : State} {o o' : Oracle} {out : Out} (
     rcases hq with hq | ⟨t, hq⟩
     · rw [workerStep_running s o _ h q hw hq] at hs'
       dsimp only at hs'
-      rcases workerPut_fits { s with queue := q } id hash w k0 v none o hk0 hmax hfit with
+      rcases workerPut_fits { s with queue := q } id hash w k0 v none o hk0 hmax hno hfit with
         ⟨s1, entry, h1, h2, h3, h4, h5⟩ | ⟨s1, t, ht, _⟩
       · rw [h1] at hs'
         simp only [workerFinish, Except.ok.injEq, Prod.mk.injEq] at hs'
@@ -179,7 +194,7 @@ theorem C03_no_pressure_no_eviction {s s' : State} {o o' : Oracle} {out : Out} (
       · cases ht
     · rw [workerStep_running s o _ h q hw hq] at hs'
       dsimp only at hs'
-      rcases workerPut_fits { s with queue := q } id hash w k0 v (some t) o hk0 hmax hfit with
+      rcases workerPut_fits { s with queue := q } id hash w k0 v (some t) o hk0 hmax hno hfit with
         ⟨s1, entry, h1, h2, h3, h4, h5⟩ | ⟨s1, t', _, _, h1, h2⟩
       · rw [h1] at hs'
         simp only [workerFinish, Except.ok.injEq, Prod.mk.injEq] at hs'
